@@ -21,7 +21,8 @@ MANIFEST = {
             'length-prefix framer, and a refusal must happen iff the reference refuses, after the same number of messages. '
             'Exhaustive in cuts per short stream, sampled over streams. All net-sim/node-sim checks additionally deliver '
             'every byte in seeded fragments.'
-            " For 30% of the streams the same statement is checked one level up: the stream travels over a simulated connection to a real node (LocalPeer's read loop, receiver, real handlers) in segments, including segments that exactly fill the node's 1024-byte reads and legal requests the handlers do not serve; the dispatched sequence must equal the one obtained when the stream arrives in one piece and be a prefix of the reference split.",
+            " For 30% of the streams the same statement is checked one level up: the stream travels over a simulated connection to a real node (LocalPeer's read loop, receiver, real handlers) in segments, including segments that exactly fill the node's 1024-byte reads and legal requests the handlers do not serve; the dispatched sequence must equal the one obtained when the stream arrives in one piece and be a prefix of the reference split."
+            ' Node-level streams also include a maximum-size block frame, a burst of a thousand minimal frames, an oversize inventory followed by further frames, cuts exactly at frame ends, and valid blocks for a node whose store fails once while the first of them is flushed.',
     'note': 'Trusted: RefFramer (refmodel/framer.py, length-prefix logic only) and the repo message decoders used as a tool '
             'to decide whether a payload is decodable. Read size never exceeds the node\'s own 1024.',
 }
